@@ -81,8 +81,12 @@ def run(R, job):
             ok = True
             try:
                 if op == "append":
-                    ok = model(a, out); exp = ref + out
-                    tl.append(a)
+                    more = [arg(1) for _ in range(r.choice([0, 0, 1, 2]))]
+                    ok = model(a, out)
+                    for m_ in more:
+                        ok = model(m_, out) and ok
+                    exp = ref + out
+                    tl.append(a, *more)
                 elif op == "extend":
                     it = a if isinstance(a, (list, tuple, core.TagList, str)) else [a]
                     ok = model(list(it) if not isinstance(it, str) else it, out); exp = ref + out
@@ -111,7 +115,10 @@ def run(R, job):
                     t = core.Tag("div"); t.children = tl
                     ok = model(a, out)
                     if op == "tag.append":
-                        exp = ref + out; t.append(a)
+                        more = [arg(1) for _ in range(r.choice([0, 0, 1, 2]))]
+                        for m_ in more:
+                            ok = model(m_, out) and ok
+                        exp = ref + out; t.append(a, *more)
                     elif op == "tag.extend":
                         it = a if isinstance(a, (list, tuple, core.TagList, str)) else [a]
                         out = []; ok = model(list(it) if not isinstance(it, str) else it, out); exp = ref + out
